@@ -194,7 +194,13 @@ def typed_args(name, argname):
         return ["os system", "builtins eval", "foo.bar Baz", "collections OrderedDict"]
     if argname == "stringnl_noescape":
         return ["pid", "42"]
-    raise KeyError(argname)
+    if argname == "floatnl":
+        return [0.0, -0.0, 1.5, -2.25, 1e300, float("inf"), float("-inf"), 5e-324, 0.1]
+    if argname == "bytearray8":
+        return [bytearray(b""), bytearray(b"ab"), bytearray(b"\x00\xff" * 200)]
+    # an opcode class with an argument kind this table does not know (a tree that supports more
+    # opcodes than the pinned one): nothing to construct it with
+    return []
 
 
 def expected_arg(name, arg):
